@@ -66,10 +66,14 @@ func c15Free(c *mc.Check, reps int) {
 
 // cellsOf renders every cell of the tables keyed by (table, row, column).
 func cellsOf(lines []string) (map[string]string, string) {
+	return cellsOfRow(lines, ".fullname")
+}
+
+func cellsOfRow(lines []string, row string) (map[string]string, string) {
 	filter, _ := benchproc.NewFilter("*")
 	var parser benchproc.ProjectionParser
 	tableBy, _, _ := parser.ParseWithUnit(".config", filter)
-	rowBy, _ := parser.Parse(".fullname", filter)
+	rowBy, _ := parser.Parse(row, filter)
 	colBy, _ := parser.Parse("goos", filter)
 	residue := parser.Residue()
 	stat := NewBuilder(tableBy, rowBy, colBy, residue)
@@ -110,12 +114,27 @@ func c15Permutations(c *mc.Check, k int) {
 		"BenchmarkA 1 90 ns/op 7 B/op",
 		"BenchmarkC 1 51 ns/op 2 allocs/op",
 	}[:k]
+	// a second pool, projected by rows of SEVERAL fields: two benchmarks whose (.name, /k) tuples differ but
+	// concatenate to the same bytes, three lines each, and a bystander
+	base2 := []string{
+		"BenchmarkB/k=11 1 100 ns/op",
+		"BenchmarkB/k=11 1 104 ns/op",
+		"BenchmarkB1/k=1 1 200 ns/op",
+		"BenchmarkB1/k=1 1 210 ns/op",
+		"BenchmarkB/k=11 1 90 ns/op",
+		"BenchmarkA 1 5 ns/op",
+		"BenchmarkB1/k=1 1 190 ns/op",
+	}[:min(k+1, 7)]
 	replay := func(raw json.RawMessage) string {
 		var perm []int
 		json.Unmarshal(raw, &perm)
+		if len(perm) > 0 && perm[0] < 0 {
+			// pool 2: the permutation follows the marker
+			return c15CheckPermRow(base2, perm[1:], ".name,/k")
+		}
 		return c15CheckPerm(base, perm)
 	}
-	f := c.Family("line-permutations", fmt.Sprintf("every one of the %d! orders of %d benchmark lines inside one configuration block: the set of cells (table, row, column → centre, interval, samples, delta, p, warnings) is identical to that of the original order (row order may differ, content may not); non-trivial = non-identity permutations", k, k), replay)
+	f := c.Family("line-permutations", fmt.Sprintf("every one of the %d! orders of %d benchmark lines inside one configuration block, and every order of a second pool of one line more projected by rows of two fields (.name,/k) in which two benchmarks' tuples concatenate to the same bytes: the number of cells is the number of distinct (benchmark, unit) pairs and the set of cells (table, row, column → centre, interval, samples, delta, p, warnings) is identical to that of the original order (row order may differ, content may not); non-trivial = non-identity permutations", k, k), replay)
 	if c.Replaying() {
 		return
 	}
@@ -140,17 +159,44 @@ func c15Permutations(c *mc.Check, k int) {
 		}
 		return true
 	})
+	f.Bounds["pool2_lines"] = len(base2)
+	mc.Permutations(len(base2), func(perm []int) bool {
+		msg := c15CheckPermRow(base2, perm, ".name,/k")
+		f.Count(1, 1)
+		if msg != "" {
+			f.Outcome("differs", 1)
+			c.Fail(f, "line-permutation", append([]int{-1}, perm...), msg)
+		} else {
+			f.Outcome("same-cells", 1)
+		}
+		return !c.TimeUp()
+	})
 	f.Sample([]int{1, 0, 2, 3})
 	f.Done()
 }
 
 func c15CheckPerm(base []string, perm []int) string {
-	want, _ := cellsOf(base)
+	return c15CheckPermRow(base, perm, ".fullname")
+}
+
+func c15CheckPermRow(base []string, perm []int, row string) string {
+	want, _ := cellsOfRow(base, row)
+	// the number of cells is known from the lines themselves: one per distinct benchmark name and unit
+	names := map[string]bool{}
+	for _, l := range base {
+		fs := strings.Fields(l)
+		for i := 3; i < len(fs); i += 2 {
+			names[fs[0]+" "+fs[i]] = true
+		}
+	}
+	if len(want) != len(names) {
+		return fmt.Sprintf("original order: %d cells for %d distinct (benchmark, unit) pairs", len(want), len(names))
+	}
 	lines := make([]string, len(perm))
 	for i, p := range perm {
 		lines[i] = base[p]
 	}
-	got, _ := cellsOf(lines)
+	got, _ := cellsOfRow(lines, row)
 	var keys []string
 	for k := range want {
 		keys = append(keys, k)
